@@ -556,6 +556,7 @@ Theorem finalize_ok : forall ord reg fr,
   orders_ok ord -> reg_wf reg -> finalize ord reg = Ok fr ->
   f_tpls fr = reg /\ parents_ok reg (f_parents fr) /\
   flat_map (orphans_of reg (f_parents fr)) reg = [] /\
+  cycle_pass reg (f_lineage fr) = Ok [] /\
   forall t, In t reg -> forall b,
     lineage_of fr (c_name t) b = nonempty (clin reg (c_name t :: ancl (f_parents fr) (c_name t)) b).
 Proof.
@@ -584,9 +585,12 @@ Proof.
   { intros n ps Hin. apply in_alookup; auto. eapply Permutation_in; [apply Hoi|exact Hin]. }
   { eapply Permutation_NoDup; [|exact HPk]. apply Permutation_map. apply Permutation_sym. apply Hoi. }
   rewrite Hr' in H. cbn [rbind] in H.
-  destruct orph as [|o orph]; [|discriminate]. inversion H; subst. cbn [f_tpls f_parents f_lineage].
+  destruct orph as [|o orph]; [|discriminate].
+  destruct (cycle_pass reg tb') as [cyc|] eqn:Ec; [|discriminate]. cbn [rbind] in H.
+  destruct cyc; [|discriminate]. inversion H; subst. cbn [f_tpls f_parents f_lineage].
   split; auto. split; [exact (conj HPk (conj HPall HPkeys))|]. split.
   { eapply orphans_perm; [apply Ho2|]. symmetry. exact Ho. }
+  split; auto.
   intros t Hin b. unfold lineage_of. cbn [f_lineage].
   destruct Hinv' as (_ & _ & Hall). destruct (Hall t Hin) as (m & Hm & Hl).
   rewrite Hm, Hl.
